@@ -26,12 +26,28 @@ type ParserZH struct {
 	stmtCompleteFlag bool
 	// nesting depth of the statement / expression being parsed (see enterNesting)
 	depth int
+	// number of links of the operator / member chains being parsed (see enterChain)
+	chain int
 }
 
 // maxNestingDepth - how deep brackets, operands and blocks may nest. The parser recurses once
 // per level; without a bound a source made of a few hundred thousand opening brackets overflows
 // the Go stack, which ends the whole process instead of yielding a syntax error.
 const maxNestingDepth = 2000
+
+// maxChainLength - how many operators / member accesses one flat chain (A + B + C …, A 之 B 之 C …)
+// may have. A chain is parsed (and later evaluated) by one level of recursion per link; a
+// source of a few million links would overflow the Go stack like deep nesting does.
+const maxChainLength = 100000
+
+// enterChain - called for every link of an operator / member chain
+func (p *ParserZH) enterChain() func() {
+	p.chain++
+	if p.chain > maxChainLength {
+		panic(p.getInvalidSyntaxPeek())
+	}
+	return func() { p.chain-- }
+}
 
 // enterNesting - called on entry of the recursive parse functions; the returned function
 // leaves the level again
